@@ -15,7 +15,7 @@ RULE = ("subsample / downsample / powerlaw_sample run under the RNG seam: every 
 ASSUMPTIONS = ["uniform variates cannot be enumerated: answered from the boundary grid %r (both ends of [0,1))" % (UNIFORM_GRID,),
                "ordered samples are enumerated when there are at most 720 of them, otherwise every unordered subset in ascending and descending order",
                "'exact' MLE: the log-likelihood is concave in alpha, so the maximiser lies within one grid step of the best of 3001 grid points"]
-REQUIRED_CLASSES = {"all": ["subsample-n-equals-total", "subsample-n-too-large", "zero-count-category", "downsample-identity", "downsample-table", "uniform-near-1", "mle-all-counts-equal-cmin", "many-categories", "sparse-draw", "transformation-overflows", "optimiser-stopped-early"]}
+REQUIRED_CLASSES = {"all": ["subsample-n-equals-total", "subsample-n-too-large", "zero-count-category", "downsample-identity", "downsample-table", "uniform-near-1", "mle-all-counts-equal-cmin", "many-categories", "sparse-draw", "transformation-overflows", "optimiser-stopped-early", "downsample-missing-entries"]}
 MIN_OUTCOMES = 10
 
 
@@ -44,6 +44,11 @@ def spaces(tier):
         for n in range(0, 5 if q else 6):
             for seqs in itertools.combinations_with_replacement(("A", "B", "AB"), n):
                 yield ("downsample", seqs)
+        # collections with missing entries (None): they are elements like any other and come back as they went in
+        for n in range(2, 5):
+            for seqs in itertools.combinations_with_replacement(("A", None, "B"), n):
+                if None in seqs:
+                    yield ("downsample", seqs)
 
     def gen_pl():
         for size in (0, 1, 2, 3):
@@ -60,7 +65,7 @@ def spaces(tier):
         Space("subsample-all-count-vectors", gen_sub, "count vectors of length 1..4, entries 0..3 (thorough 0..4), total <= 6 (quick) / 10 (thorough) x n in 0..total+1 x every RNG answer", shards=64),
         Space("subsample-many-categories", gen_many, "count vectors with 255..300 (thorough: 65537) categories, entries cycling through 0..top: n = total (one possible sub-sample, both orders) and n = 1 (every single item), conservation laws on every RNG answer", per_case=True),
         Space("sparse-draws", gen_sparse, "subsample of n=1 (and n=2 for totals <= 130) items out of 101..151; downsample of 2 out of 65..130 distinct elements of an ndarray/list: every RNG answer, exact uniformity over items / pairs", per_case=True),
-        Space("downsample-all-multisets", gen_down, "multisets of 0..4(5) strings over {A,B,AB} as list/ndarray/Series/table/table with duplicated index labels x maxseqs in {None,0..N+1} x every RNG answer"),
+        Space("downsample-all-multisets", gen_down, "multisets of 0..4(5) strings over {A,B,AB} and of 2..4 entries over {A,None,B} containing None, as list/ndarray/Series/table/table with duplicated index labels x maxseqs in {None,0..N+1} x every RNG answer"),
         Space("powerlaw_sample-uniform-grid", gen_pl, "size 0..3 x xmin 1..4 x alpha {1.5,2,3.5,1.01} x uniform grid^size"),
         Space("powerlaw_mle-all-multisets", gen_mle, "multisets of 1..4(5) counts from 1..6 x cmin {1, 2, 1.5, 2.5} (closed forms; exact fit for integer cmin) x 3 methods"),
     ]
@@ -237,6 +242,8 @@ def check_case(case, acc):
     elif kind == "downsample":
         seqs = list(case[1])
         N = len(seqs)
+        if None in seqs:
+            acc.cls("downsample-missing-entries")
         boxes = {"list": lambda: list(seqs), "tuple": lambda: tuple(seqs), "ndarray": lambda: np.array(seqs, dtype=object) if not seqs else np.array(seqs), "series": lambda: pd.Series(seqs, index=range(3, 3 + N), dtype=object),
                  "table": lambda: pd.DataFrame({"CDR3B": seqs, "k": list(range(N))}, index=range(7, 7 + N)),
                  "table-duplicate-labels": lambda: pd.DataFrame({"CDR3B": seqs, "k": list(range(N))}, index=[i // 2 for i in range(N)])}
